@@ -23,7 +23,7 @@ ASSUMPTIONS = [
     "the symbolic unitary block is written into the UnitaryMatrix component directly (check_unitary bypassed): the amplitude identity does not depend on unitarity",
 ]
 BOUNDS = {
-    "quick": "(2 modes: up to 4 photons) n<=3 visible modes + <=2 heralds (photon numbers 0..2, in != out allowed) + <=2 loss elements, inputs with <=3 photons (bunched, vacuum), explicit and generated output lists, lists that repeat a state, circuits whose two modes are both heralded; unit-vector: 4 lossless layouts of symbolic bs/ps on <=3 modes, <=2 photons",
+    "quick": "(2 modes: up to 4 photons) n<=3 visible modes + <=2 heralds (photon numbers 0..2, in != out allowed) + <=2 loss elements, inputs with <=3 photons (bunched, vacuum), explicit and generated output lists, lists that repeat a state, heralds declared on the circuit after the Simulator was created and used, circuits whose two modes are both heralded; unit-vector: 4 lossless layouts of symbolic bs/ps on <=3 modes, <=2 photons",
     "thorough": "n<=4 visible modes, <=4 photons in total; unit-vector up to 3 photons",
 }
 OUTSIDE = "thewalrus itself; photon numbers above the bound; float rounding; validation of malformed states is decided by the CrossHair conditions xh/c03_validation.py"
@@ -46,7 +46,17 @@ def _mk_circuit(ctx, n_full, heralds, n_loss):
 
 def h_amplitudes(ctx, n_full, heralds, n_loss, kmax, explicit):
     lw = ctx.lw
-    c = _mk_circuit(ctx, n_full, heralds, n_loss)
+    sim = None
+    if explicit == "late-heralds":
+        # the Simulator is created (and used once) while the circuit has no heralds yet; the heralds are
+        # then declared on the same circuit object: every simulate call is about the circuit as it is now
+        c = _mk_circuit(ctx, n_full, [], n_loss)
+        sim = lw.emulator.Simulator(c)
+        sim.simulate(lw.State([1] + [0] * (n_full - 1)))
+        for (p_, hi_, ho_) in heralds:
+            c.herald(p_, hi_, ho_)
+    else:
+        c = _mk_circuit(ctx, n_full, heralds, n_loss)
     n_in = n_full - len(heralds)
     ctx.check(c.input_modes == n_in, "input_modes")
     h_in = {hi: p for (p, hi, ho) in heralds}
@@ -78,7 +88,8 @@ def h_amplitudes(ctx, n_full, heralds, n_loss, kmax, explicit):
         outputs = lw.State(ctx.choice("output", outs_all))
     else:
         outputs = None
-    sim = lw.emulator.Simulator(c)
+    if sim is None:
+        sim = lw.emulator.Simulator(c)
     try:
         res = sim.simulate(inputs, outputs)
     except Exception as e:  # noqa: BLE001
@@ -125,6 +136,8 @@ def amp_cases(tier):
                 modes = ["all-outputs"]
                 if n_loss == 0:
                     modes += ["explicit", "list1", "two-inputs", "single-output", "duplicates"]
+                if hs and n_in > 0 and n_loss <= 1:
+                    modes += ["late-heralds"]
                 for explicit in modes:
                     km = kmax if n_full <= 3 else min(kmax, 3)
                     if n_full == 2 and not hs and n_loss == 0:
